@@ -77,6 +77,15 @@ pub fn run(args: &[String]) -> i32 {
             late: v["req"]["late"] == true,
             dv_filters: vec![],
             ev_min: None,
+            claim: if v["req"]["claim"].is_boolean() { v["req"]["claim"] == true } else { v["req"]["timed"] == true },
+            chunk2: match v["req"]["paths2"].as_array() {
+                Some(a) if !a.is_empty() => Some((
+                    a.iter().map(|p| (comp(&p["ep"], false).map(|x| x as u16), comp(&p["cl"], true).map(|x| x as u32), comp(&p["leaf"], false).map(|x| x as u32))).collect(),
+                    v["req"]["claim2"] == true,
+                    v["req"]["late2"] == true,
+                )),
+                _ => None,
+            },
         };
         let o = crate::util::catch(|| run_request(&spec, &acl, pase, &req, 400));
         match o {
